@@ -29,6 +29,7 @@ func init() {
 			ruleC08Adapters(c)
 			ruleC08TxComplete(c)
 			ruleListenerRegistered(c, "C08.REGISTER", "AddTxCompleteListener", "txCompleteListeners")
+			ruleCommitHook(c, "C08.COMMITHOOK")
 			ruleRegistrationReachesPhase(c, "C08.LISTENERREG", "post")
 			ruleListenersKept(c, "C08.LISTENERSKEPT", "txCompleteListeners")
 			ruleC08Actions(c)
@@ -84,6 +85,8 @@ func init() {
 			// the refusal of a child store's constraint comes back from processDeleteConstraints together with a
 			// change flow: it must be looked at whatever the flow is
 			ruleErrorLookedAtOnEveryPath(c, "C16.LOOKEDAT", c.prodFuncs("boltz"))
+			// the context the caller's function runs with is the caller's own (a system context stays one)
+			ruleTxFn(c, "C16.TXFN")
 			// a refusal recorded in the child's error holder must survive the hand-over to the parent context
 			ruleParentChain(c, "C16.CHAIN")
 		},
@@ -1566,6 +1569,7 @@ func ruleC17Snapshot(c *Ctx) {
 	ms := p.SSAFunc(mark)
 	c.Analysed(FnName(ms))
 	okM := false
+	whyM := "the snapshot copy is not marked with both snapshot id and reset flag in one transaction"
 	for _, a := range ms.AnonFuncs {
 		var sid, reset bool
 		for _, call := range callsIn(a) {
@@ -1587,10 +1591,33 @@ func ruleC17Snapshot(c *Ctx) {
 			}
 		}
 		if sid && reset {
-			okM = true
+			// ... both on every path of that transaction: a marker written only under a condition on the copied
+			// data (the database already has a timeline id, say) leaves some snapshots without it
+			writes := func(method, key string) func(ssa.Instruction) bool {
+				return func(in ssa.Instruction) bool {
+					call, isCall := in.(ssa.CallInstruction)
+					if !isCall {
+						return false
+					}
+					cal, _ := calleeOf(call.Common())
+					if cal == nil || cal.Name() != method {
+						return false
+					}
+					for _, arg := range call.Common().Args {
+						if s, isS := constString(arg); isS && s == key {
+							return true
+						}
+					}
+					return false
+				}
+			}
+			okM = noPathAvoiding(a, writes("SetString", constStr(p, "SnapshotId")), nil) && noPathAvoiding(a, writes("SetBool", constStr(p, "ResetTimeline")), nil)
+			if !okM {
+				whyM = "the snapshot id or the timeline-reset flag is written only on some paths of the marking transaction: a snapshot can be left without it (restoring it then keeps the old timeline)"
+			}
 		}
 	}
-	c.Check(okM, "C17.SNAPSHOT", FnName(ms), p.Pos(ms.Pos()), "snapshot id and timeline-reset flag are written in one transaction", "the snapshot copy is not marked with both snapshot id and reset flag in one transaction")
+	c.Check(okM, "C17.SNAPSHOT", FnName(ms), p.Pos(ms.Pos()), "snapshot id and timeline-reset flag are written in one transaction", whyM)
 	c.Floor("C17.SNAPSHOT", 3)
 }
 
